@@ -3,6 +3,7 @@ package vk
 import (
 	"context"
 	"fmt"
+	"os"
 	"runtime"
 	"runtime/debug"
 	"strings"
@@ -12,6 +13,9 @@ import (
 	"testing/synctest"
 	"time"
 )
+
+// WatchdogLimit is the real-time budget of one bubble.
+var WatchdogLimit = 120 * time.Second
 
 // BubbleResult describes how a bubble ended.
 type BubbleResult struct {
@@ -38,6 +42,13 @@ func Bubble(t *testing.T, f func()) (res BubbleResult) {
 			res.Panic = "outer: " + s
 		}
 	}()
+	// real-time watchdog (this goroutine is outside the bubble): a case that spins without ever
+	// becoming quiescent would otherwise run until the test binary's timeout
+	wd := time.AfterFunc(WatchdogLimit, func() {
+		fmt.Fprintln(os.Stderr, "WATCHDOG: a single bubble ran longer than", WatchdogLimit, "of real time (livelock or runaway loop)")
+		os.Exit(3)
+	})
+	defer wd.Stop()
 	synctest.Test(t, func(t *testing.T) {
 		defer func() {
 			if r := recover(); r != nil {
